@@ -63,7 +63,7 @@ def signature(rec):
 def main():
     args = parse_args(PID)
     spec = dict(
-        pid=PID, level="exploration", binaries=build(), runs={"quick": 12320, "thorough": 200000}, thorough_budget_s=900,
+        pid=PID, level="exploration", binaries=build(), runs={"quick": 9000, "thorough": 200000}, thorough_budget_s=900,
         signature=signature, param_min=[1, 0, 0], variant_runs={"zero+history": 320},
         nontrivial=lambda r: r.get("ctr", {}).get("fork", 0) >= 1 and r.get("ctr", {}).get("context_switches", 0) >= 1 or r.get("ctr", {}).get("handler_runs", 0) >= 1,
         rule="one run = one seeded set of caller threads, each executing planned commands (child fate: exit 0 / exit k / killed by signal / exec failure, planned run length) "
